@@ -167,7 +167,12 @@ func genLayerTree(g *Gen, t *treeB, l glayer, pf scnProfile, sloppy bool) {
 	if incomplete && g.Chance(1, 4) {
 		// a stray file where a directory belongs
 		stray = g.Pick("/build", "/overlayfs/workdir", "/overlayfs/upperdir", "/overlayfs")
-		t.file(lp+stray, "stray")
+		if g.Chance(1, 3) {
+			// … or a symbolic link that leads nowhere
+			t.link(lp+stray, "/nonexistent/elsewhere")
+		} else {
+			t.file(lp+stray, "stray")
+		}
 	}
 	if stray != "" {
 		// nothing else of this layer below the stray file
